@@ -4,6 +4,7 @@
   `prox_{σg*} = 0`, saddle point `(y0, 0)`.
 -/
 import Scico.Proofs.StepsOpial
+import Scico.Proofs.StepsOpial2
 import Scico.Proofs.StepsExamples
 
 set_option linter.unusedSectionVars false
@@ -33,5 +34,18 @@ theorem exPDHG_saddle [FiniteDimensional ℝ X] (y0 : X) :
     have : y = 0 := hy
     subst this
     simp [Fn.indicator]
+
+/-- the LinearizedADMM instance (`C = I`, `μ = ½`, `ν = 1`, so `μ‖C‖² = ½ < ν`) meets the hypotheses of
+    `ladmm_converges_findim`; KKT point `(y0, y0, 0)` -/
+theorem exLADMM_conv [FiniteDimensional ℝ X] (y0 : X) : LADMMConvHyp (exLADMM y0) (halfSq y0) zeroFn 1 :=
+  ⟨by norm_num [exLADMM], by norm_num [exLADMM], fun _ _ => rfl, fun _ _ => rfl, isProx_halfsq y0, isProx_zero,
+   by norm_num, fun a => by simp [exLADMM], by norm_num [exLADMM]⟩
+
+theorem exLADMM_kkt [FiniteDimensional ℝ X] (y0 : X) : IsLKKT (exLADMM y0) (halfSq y0) zeroFn (y0, y0, 0) := by
+  refine ⟨rfl, ?_, ?_⟩
+  · have := halfSq_subgrad y0 y0
+    simpa [exLADMM] using this
+  · have := zeroFn_subgrad (E := X) y0
+    simpa [exLADMM] using this
 
 end Scico.Steps
